@@ -84,6 +84,11 @@ class MutexObserver(l1.Observer):
                                    f"ensemble {slot - off}: marked busy={bool(st._locks[slot])} but held={busy}")
         if st._locks[st.n - 1] != 1:
             raise l1.Violation("state:ghost-unlocked", "ghost ensemble unlocked")
+        # the in-flight jobs recorded for a restart are exactly the jobs in flight
+        rec = sorted((tuple(l[0]), tuple(str(x) for x in l[1])) for l in st.locked)
+        act = sorted((tuple(md["ens_nums"]), tuple(str(x) for x in md["pnum_old"])) for md in run.inflight)
+        if rec != act:
+            raise l1.Violation("state:recorded-inflight-jobs", f"recorded for restart {rec}, actually in flight {act}")
         if len(run.inflight) != min(st.workers, st.workers):
             raise l1.Violation("state:inflight-count", f"{len(run.inflight)} jobs in flight with {st.workers} workers")
 
@@ -100,6 +105,9 @@ def specs(ctx):
         out.append(l1.Spec(B=4, workers=2, moves=["sh", "sh", "wf", "wf"], alphabet="ha"))
         out.append(l1.Spec(B=4, workers=3, moves=["sh", "wf", "wf", "sh"], alphabet="ha", cap=2.5))
     out.append(l1.Spec(B=3, workers=2, moves=["sh", "wf", "wf"], alphabet="ha"))
+    # a long-running simulation: path numbers that are prefixes / substrings of one another
+    out.append(l1.Spec(B=4, workers=2, labels=[1, 10, 11, 100]))
+    out.append(l1.Spec(B=3, workers=2, labels=[21, 2, 1]))
     return out
 
 
